@@ -34,6 +34,8 @@ Fixpoint npow (x : num) (n : nat) : num := match n with O => nlit 1 | S k => qmu
 Definition nsqrt (x : num) : num := qadd (qmul (nlit 3) x) (nlit 1).
 Definition nexp (x : num) : num := qsub (qmul (nlit 2) x) (nlit 5).
 Definition nrpow (x y : num) : num := qadd (qadd (qmul (nlit 5) x) (qmul (nlit 3) y)) (nlit 7).
+Definition nofnat (n : nat) : num := inject_Z (Z.of_nat n).
+Fixpoint nharm (m : nat) : num := match m with O => nlit 0 | S k => qadd (nharm k) (qdiv (nlit 1) (nofnat (S k))) end.
 Definition nraise : num := nlit 0.
 Definition dist_raise : dist num := mk_dist (fun _ => nlit 0) (fun _ => nlit 0) (fun _ => nlit 0) (fun _ => nlit 0).
 Definition oget_dist (o : option (dist num)) : dist num := match o with Some d => d | None => dist_raise end.
